@@ -388,6 +388,7 @@ type Hook struct {
 	Mode string // "ok" | "panic_start" | "panic_end"
 	mu   sync.Mutex
 	ev   [][]any
+	rid  []string // request id of each event (parallel to ev)
 	n    int
 }
 
@@ -400,10 +401,12 @@ func (h *Hook) OnDispatchStart(ctx context.Context, info vgirpc.DispatchInfo) (c
 	n := h.n
 	if h.Mode == "panic_start" {
 		h.ev = append(h.ev, []any{"start_panicked", info.Method})
+		h.rid = append(h.rid, info.RequestID)
 		h.mu.Unlock()
 		panic("scripted hook start panic")
 	}
 	h.ev = append(h.ev, []any{"start", info.Method})
+	h.rid = append(h.rid, info.RequestID)
 	h.mu.Unlock()
 	return ctx, &hookTok{n: n}
 }
@@ -418,6 +421,7 @@ func (h *Hook) OnDispatchEnd(_ context.Context, token vgirpc.HookToken, info vgi
 		e = append(e, "token-mismatch")
 	}
 	h.ev = append(h.ev, e)
+	h.rid = append(h.rid, info.RequestID)
 	h.mu.Unlock()
 	if h.Mode == "panic_end" {
 		panic("scripted hook end panic")
@@ -429,9 +433,28 @@ func (h *Hook) Take() [][]any {
 	h.mu.Lock()
 	defer h.mu.Unlock()
 	e := h.ev
-	h.ev = nil
+	h.ev, h.rid = nil, nil
 	if e == nil {
 		e = [][]any{}
 	}
 	return e
+}
+
+// TakeFor returns and removes the events of the dispatch with the given request id (a
+// pipelining client observes call n while the server may already be running call n+1).
+func (h *Hook) TakeFor(rid string) [][]any {
+	h.mu.Lock()
+	defer h.mu.Unlock()
+	out := [][]any{}
+	var kev [][]any
+	var krid []string
+	for i, e := range h.ev {
+		if h.rid[i] == rid {
+			out = append(out, e)
+		} else {
+			kev, krid = append(kev, e), append(krid, h.rid[i])
+		}
+	}
+	h.ev, h.rid = kev, krid
+	return out
 }
